@@ -1,6 +1,7 @@
 package props
 
 import (
+	"io"
 	"crypto/rsa"
 	"fmt"
 	"os"
@@ -556,13 +557,13 @@ func c34SealedInner() *explore.Scenario {
 }
 
 func c34Scenarios(thorough bool) []*explore.Scenario {
-	return []*explore.Scenario{c34Hellos(thorough), c34Flights(), c34TwoHellos(), c34SealedInner(), c34ShortProtectedRecords(), c34PSKShapes(), c34KeyUpdateReplyFails()}
+	return []*explore.Scenario{c34Hellos(thorough), c34Flights(), c34TwoHellos(), c34SealedInner(), c34ShortProtectedRecords(), c34PSKShapes(), c34KeyUpdateReplyFails(), c34OversizedInnerPlaintext()}
 }
 
 func init() {
 	register(&Prop{ID: "C34", Level: "exploration", Variant: "A", Scenarios: c34Scenarios,
 		Run: func(c *explore.Check, thorough bool) {
-			c.Rule = "ClientHello of every discovered ID, custom specs, real-ECH outer hellos (server holding the matching key) and a PSK hello x server {with, without ECH keys} x mutation {every byte position (all for <= 300 B, else head/stride/tail) x values {00, ff, ^01 (+7f, 80)}, truncation to every such length, every extension body truncated to every length with all outer prefixes fixed, every key share resized to {0,1,31,32,33,64,65,100,600,1183,1184,1185,1215,1217} bytes with consistent prefixes}; complete flights of 6 clients x {1.3,1.2} x client auth in which the client inserts an extra handshake message of type {8,25,99,4,24,1,11,20} with 0/2/300-byte body before/after each of its own messages (client-side verif hook); two-hello inputs: a first hello without a usable share (forcing a HelloRetryRequest) and a second hello, each carrying one of 5 ECH extension shapes {absent, inner marker, outer all-zero, outer GREASE-like, real outer} x 4 second-hello variations x server with/without ECH keys; correctly HPKE-sealed ECH payloads around inner hellos assembled by the harness: 10 ech_outer_extensions shapes x 3 paddings x 3 inner ECH markers x 3 truncations x {once, twice}; every TLS <= 1.2 suite of the server's table (stream, CBC, AEAD; RSA and ECDHE key exchange) x every version it exists in x record type {handshake, application data, alert} x every record length 0..80 sent right after a scripted ClientHello, ClientKeyExchange and ChangeCipherSpec; a returning client's second ClientHello (genuine ticket of this server) with 6 identity-list shapes (junk before / after / around the ticket) x 0..3 binders x 2 binder lengths; an established TLS 1.3 connection on which 3 clients send KeyUpdate {plain, update_requested} followed by data while the server transport {works, fails every write}: the server Read and a following Close return. Oracle: server Handshake/Read return without panic (watchdog 60 s). distinct = case"
+			c.Rule = "ClientHello of every discovered ID, custom specs, real-ECH outer hellos (server holding the matching key) and a PSK hello x server {with, without ECH keys} x mutation {every byte position (all for <= 300 B, else head/stride/tail) x values {00, ff, ^01 (+7f, 80)}, truncation to every such length, every extension body truncated to every length with all outer prefixes fixed, every key share resized to {0,1,31,32,33,64,65,100,600,1183,1184,1185,1215,1217} bytes with consistent prefixes}; complete flights of 6 clients x {1.3,1.2} x client auth in which the client inserts an extra handshake message of type {8,25,99,4,24,1,11,20} with 0/2/300-byte body before/after each of its own messages (client-side verif hook); two-hello inputs: a first hello without a usable share (forcing a HelloRetryRequest) and a second hello, each carrying one of 5 ECH extension shapes {absent, inner marker, outer all-zero, outer GREASE-like, real outer} x 4 second-hello variations x server with/without ECH keys; correctly HPKE-sealed ECH payloads around inner hellos assembled by the harness: 10 ech_outer_extensions shapes x 3 paddings x 3 inner ECH markers x 3 truncations x {once, twice}; every TLS <= 1.2 suite of the server's table (stream, CBC, AEAD; RSA and ECDHE key exchange) x every version it exists in x record type {handshake, application data, alert} x every record length 0..80 sent right after a scripted ClientHello, ClientKeyExchange and ChangeCipherSpec; a returning client's second ClientHello (genuine ticket of this server) with 6 identity-list shapes (junk before / after / around the ticket) x 0..3 binders x 2 binder lengths; an established TLS 1.3 connection on which 3 clients send KeyUpdate {plain, update_requested} followed by data while the server transport {works, fails every write}: the server Read and a following Close return; one correctly protected TLS 1.3 record whose inner plaintext is {16385 (legal), 16386 … 16624} bytes of content and padding: delivered, respectively refused with an error. Oracle: server Handshake/Read return without panic (watchdog 60 s). distinct = case"
 			c.Assumptions = []string{"small-scope: one mutation per execution from a fixed menu", "QUIC server input is not covered"}
 			runAll(c, c34Scenarios(thorough), 0)
 			c.Gate(c.Total.Counters["server_returned"] > 50000, "non-vacuity: %d server runs", c.Total.Counters["server_returned"])
@@ -841,6 +842,65 @@ func c34KeyUpdateReplyFails() *explore.Scenario {
 				r.Violate("C34|key-update|data-differs", "%s: server read %q", what, buf[:n])
 			}
 			r.Obs = fmt.Sprintf("read=%d/%s|close=%s", n, errClass(err), errClass(cerr))
+			return
+		},
+	}
+}
+
+// c34OversizedInnerPlaintext — a client holding the record keys sends ONE correctly protected TLS 1.3
+// record whose inner plaintext exceeds 2^14+1 bytes while the outer record still passes the ciphertext
+// limit (content of 16385..16623 bytes, or shorter content plus padding). The server's Read must return
+// an error (record_overflow), not panic.
+func c34OversizedInnerPlaintext() *explore.Scenario {
+	ids := []tls.ClientHelloID{tls.HelloGolang, tls.HelloChrome_Auto}
+	shapes := [][2]int{{16384, 0}, {16385, 0}, {16386, 0}, {16500, 0}, {16623, 0}, {100, 16300}, {16000, 500}}
+	return &explore.Scenario{
+		Name:     "oversized-inner-plaintext-under-real-keys",
+		Watchdog: 30 * time.Second, HangSig: "C34|hang|oversized-inner-plaintext",
+		Run: func(x *explore.X) (r explore.Result) {
+			id := ids[x.Choose("client", len(ids))]
+			sh := shapes[x.Choose("shape", len(shapes))]
+			what := fmt.Sprintf("%s: one protected record with %d content bytes and %d padding bytes", id.Client, sh[0], sh[1])
+			ready, finished := make(chan struct{}), make(chan struct{})
+			buf := make([]byte, 20000)
+			var n int
+			var err error
+			var spanic string
+			hs := peer.Run(peer.ClientConfig("example.com"), id, peer.ServerConfig(), peer.Opts{KeepOpen: true,
+				ServerAfter: func(s *tls.Conn) error {
+					defer close(finished)
+					<-ready
+					spanic = catch(func() { n, err = io.ReadFull(s, buf[:sh[0]]) })
+					return nil
+				}})
+			defer hs.Finish()
+			if !hs.OK() || hs.S.ConnectionState().Version != tls.VersionTLS13 {
+				close(ready)
+				r.Obs = "no-tls13-handshake"
+				return
+			}
+			r.Nontrivial = true
+			r.Class = what
+			werr := tls.VerifWriteTLS13PaddedRecord(hs.U.Conn, payload(sh[0], 0x11), sh[1])
+			hs.CE.Close() // nothing more will come: a server that waits for more data sees EOF
+			close(ready)
+			<-finished
+			if werr != nil {
+				r.Violate("INFRA|c34-oversized-write", "%s: %v", what, werr)
+				return
+			}
+			if spanic != "" {
+				r.Violate("C34|server-panic|oversized-inner-plaintext|"+errClass(fmt.Errorf("%s", firstLineOf(spanic))), "%s: %s", what, truncStr(spanic, 400))
+				return
+			}
+			legal := sh[0]+1+sh[1] <= 16385
+			if legal && (err != nil || n != sh[0]) {
+				r.Violate("C34|legal-full-record-refused", "%s: read %d bytes, %v", what, n, err)
+			}
+			if !legal && err == nil {
+				r.Violate("C34|oversized-inner-plaintext-accepted", "%s: the server delivered %d bytes", what, n)
+			}
+			r.Obs = fmt.Sprintf("legal=%v|err=%s", legal, errClass(err))
 			return
 		},
 	}
